@@ -168,6 +168,20 @@ class RangeVal:
         self.start, self.stop, self.step, self.parallel = start, stop, step, parallel
 
 
+class ChunkSeq:
+    """a finite sequence of consecutive read chunks tiling a byte stream: chunk k = stream[cut(k) : cut(k+1)], 0 <= k < n"""
+
+    def __init__(self, stream, cut, n):
+        self.stream, self.cut, self.n = stream, cut, n
+
+
+BYTES_DT = None      # set below (DT of python bytes / memoryview objects)
+
+
+def is_bytes(a):
+    return isinstance(a, Arr) and a.dt is not None and a.dt.np_name == 'bytes' and a.ndim == 1
+
+
 class TupleSV(tuple):
     pass
 
@@ -261,8 +275,11 @@ def has_quant(f):
 
 class LoopSpec:
     def __init__(self, invariant=(), variant=None, modifies=(), writes=None, reads_own=True, asserts=(),
-                 exit_asserts=(), unroll=False, body_asserts=None, no_havoc=()):
+                 exit_asserts=(), unroll=False, body_asserts=None, no_havoc=(), index=None, views=(), kinds=None):
         self.invariant = list(invariant)
+        self.index = index            # name of the hidden position index of a loop over a chunk sequence
+        self.views = list(views)      # 1-D view variables re-bound in the loop: havoc = same base, fresh offset / length
+        self.kinds = kinds or {}      # structural modes {name: ['none', 'int[:]']}: the loop head is verified once per kind
         self.variant = variant
         self.modifies = list(modifies)
         self.writes = writes          # prange footprints: {array name: (idxvars, predicate)}
@@ -277,8 +294,9 @@ class LoopSpec:
 class CalleeSpec:
     """contract of a callee used modularly at call sites"""
 
-    def __init__(self, params, requires=(), ensures=(), frame=None, result=None, defaults=None):
+    def __init__(self, params, requires=(), ensures=(), frame=None, result=None, defaults=None, updates=None):
         self.params = list(params)
+        self.updates = updates or {}   # ghost variables of the caller assigned by the call: {ghost_name: expression over the pre-state}
         self.requires = list(requires)
         self.ensures = list(ensures)
         self.frame = frame or {}       # {param: None (whole view may change) | (idxvars, predicate that MAY change)}
@@ -576,6 +594,11 @@ class Engine:
         if isinstance(n.value, complex):
             self.note_assumed('complex values are abstracted to uninterpreted reals (safety contracts only)')
             return SV(fresh('cplx', z3.RealSort()), 'real')
+        if isinstance(n.value, bytes):
+            a = self.new_array(st, 'bytes', [z3.IntVal(len(n.value))], 'int', BYTES_DT, readonly=True)
+            for k, b in enumerate(n.value):
+                st.heap[a.base] = z3.Store(st.heap[a.base], k, b)
+            return a
         return n.value
 
     def ev_Name(self, n, st):
@@ -636,6 +659,8 @@ class Engine:
                 return np_dtype(a, self.spec.mode)
             if full in ('numpy.ubyte',):
                 return np_dtype('uint8', self.spec.mode)
+            if full in ('numpy.byte',):
+                return np_dtype('int8', self.spec.mode)
             if full == 'numpy.nan':
                 # NaN has no real-number semantics: an arbitrary (unconstrained) real
                 return SV(fresh('nan', z3.RealSort()), 'real')
@@ -666,12 +691,20 @@ class Engine:
                 return Bound('T', v)
             if a in ARR_METHODS:
                 return Bound(a, v)
+            if a == 'contiguous':
+                self.note_assumed('buffers handed to the codec are contiguous (the .contiguous checks never raise)')
+                return True
+            if a in ('ctypes', 'cast', 'toreadonly', 'tobytes'):
+                return Bound(a, v)
             raise Unsupported('array attribute ' + a)
         if isinstance(v, DT):
             if a == 'type':
                 return v
             if a == 'itemsize':
                 return v.itemsize
+        if isinstance(v, Bound) and v.name == 'ctypes' and a == 'data' and isinstance(v.obj, Arr) and v.obj.ndim == 1:
+            # address of the first element of the view: base address (one symbol per allocation) + offset in elements (bytes)
+            return SV(z3.Int('addr_' + v.obj.base) + v.obj.axes[-1][1], 'int')
         if isinstance(v, Bound) and v.name == 'T' and a in ARR_METHODS:
             return Bound('T.' + a, v.obj)
         if isinstance(v, tuple) and v and v[0] == 'linspace' and a == 'astype':
@@ -718,6 +751,9 @@ class Engine:
                 return v.t != 0
             if is_bv(v.ty):
                 return v.t != 0
+        if is_bytes(v):
+            c = conc_int(simp(v.shape[0]))
+            return (c != 0) if c is not None else (v.shape[0] != 0)
         if isinstance(v, Arr):
             raise Unsupported('truth value of an array')
         if z3.is_expr(v):
@@ -909,6 +945,8 @@ class Engine:
         if isinstance(a, Arr) and not isinstance(b, Arr) and isinstance(op, (ast.Add, ast.Sub, ast.Mult)) and not self.specmode:
             from . import library
             return library.array_scalar_op(self, st, op, a, b, n)
+        if isinstance(op, ast.Add) and is_bytes(a) and isinstance(b, Arr) and b.ndim == 1 and b.ety == 'int':
+            return self.concat_bytes(st, a, b)
         if isinstance(a, Arr) or isinstance(b, Arr):
             raise Unsupported('whole-array arithmetic ' + (norm_src(n) if n is not None else ''))
         if isinstance(op, ast.Pow) and isinstance(b, (int, float)) and not isinstance(b, bool) and isinstance(a, SV):
@@ -987,6 +1025,16 @@ class Engine:
                     raise Unsupported('signed bit-vector floor division')
                 return SV(z3.UDiv(a.t, b.t) if t is ast.FloorDiv else z3.URem(a.t, b.t), a.ty)
         raise Unsupported('binop ' + t.__name__ + ' on ' + a.ty)
+
+    def concat_bytes(self, st, a, b):
+        """bytes + bytes-like: a new immutable byte string (elements are raw byte values)"""
+        la, lb = a.shape[0], b.shape[0]
+        r = self.new_array(st, 'bytes', [simp(la + lb)], 'int', BYTES_DT, readonly=True)
+        q = fresh('cq', z3.IntSort())
+        ra = z3.Select(st.heap[r.base], q)
+        st.pc.append(z3.ForAll([q], z3.Implies(z3.And(0 <= q, q < la + lb),
+                                               ra == z3.If(q < la, self.sel(st, a, [q]), self.sel(st, b, [q - la]))), patterns=[ra]))
+        return r
 
     def bitop(self, t, a, b, n):
         if self.spec.mode != 'bv' and a.ty == 'int' and b.ty == 'int':
@@ -1371,6 +1419,10 @@ class Engine:
         post.env['__old__'] = St(env, old_heap, st.pc)
         for e in cs.ensures:
             st.pc.append(self.spec_bool(e, post))
+        for gname, expr in cs.updates.items():
+            if not gname.startswith('ghost_') or gname not in st.env:
+                raise ContractError(f'callee contract of {q}: update of {gname}, which is not a ghost variable of the caller')
+            st.env[gname] = self.spec_eval(expr, pre)
         return res
 
     def note_callee(self, q):
@@ -1859,9 +1911,11 @@ class Engine:
                     else:
                         done.append(q)
             return states + done
+        from . import loops
+        if isinstance(it, ChunkSeq):
+            return loops.symbolic_for(self, s, st, RangeVal(0, SV(it.n, 'int'), 1), elems=it)
         if not isinstance(it, RangeVal):
             raise Unsupported('iteration over ' + type(it).__name__)
-        from . import loops
         return loops.symbolic_for(self, s, st, it)
 
     def has_loop_spec(self, s):
@@ -1883,7 +1937,17 @@ class Engine:
         raise Unsupported('with statement')
 
     def st_Try(self, s, st):
-        raise Unsupported('try statement')
+        # only the compatibility idiom `try: x = x.method() except AttributeError: pass`: the body is executed and assumed not to
+        # raise the handled exception (stated as an assumption); anything else is outside the subset
+        ok = (not s.orelse and not s.finalbody and len(s.handlers) == 1 and isinstance(s.handlers[0].type, ast.Name)
+              and s.handlers[0].type.id == 'AttributeError' and all(isinstance(x, ast.Pass) for x in s.handlers[0].body))
+        if not ok:
+            raise Unsupported('try statement')
+        self.note_assumed('try/except AttributeError compatibility idiom: the guarded attribute exists (python >= 3.8)')
+        outs = self.exec_block(s.body, [st])
+        if any(o.flow == 'raise' for o in outs):
+            raise Unsupported('raise inside try')
+        return outs
 
     def st_Global(self, s, st):
         return [st]
@@ -1900,6 +1964,21 @@ class Engine:
         optionally with numpy dtype suffix 'int[:]@int32'"""
         if not isinstance(decl, str) or decl.startswith('='):
             return decl[1:] if isinstance(decl, str) else decl
+        if decl.startswith('chunks:'):
+            # a sequence of read chunks tiling the byte stream <sname> (declared here as well): chunk k = sname[CUT(k) : CUT(k+1)]
+            sname = decl[7:]
+            arr = self.make_arg(sname, 'int[:]!ro', st)
+            arr.dt = BYTES_DT
+            st.env[sname] = arr
+            cut = z3.Function('CUT', z3.IntSort(), z3.IntSort())
+            nch = z3.Int('NCHUNKS')
+            a_, b_ = z3.Ints('ca cb')
+            st.pc += [nch >= 0, cut(0) == 0, cut(nch) == arr.shape[0],
+                      z3.ForAll([a_, b_], z3.Implies(z3.And(0 <= a_, a_ <= b_, b_ <= nch), cut(a_) <= cut(b_)), patterns=[z3.MultiPattern(cut(a_), cut(b_))])]
+            self.ghost['CUT'] = lambda k: SV(cut(simp(I(k))), 'int')
+            self.ghost['CUT']._pyvc_ghost = True
+            self.ghost['NCHUNKS'] = SV(nch, 'int')
+            return ChunkSeq(arr, cut, nch)
         npname = None
         if '@' in decl:
             decl, npname = decl.split('@')
@@ -1979,6 +2058,8 @@ class Engine:
                     st.env[nm] = self.ev(defaults[nm], St({'__mod__': mi}, {}, []))
                 else:
                     raise ContractError(f'{spec.qualname}: parameter {nm} has no declaration in the contract')
+            if a.kwarg is not None:
+                st.env[a.kwarg.arg] = {}        # no extra keyword arguments (they are only passed through)
             for nm, decl in declared.items():
                 if nm.startswith('ghost_'):
                     st.env[nm] = self.make_arg(nm, decl, st)
@@ -2128,7 +2209,7 @@ ARR_METHODS = {'sum', 'cumsum', 'astype', 'reshape', 'argsort', 'copy', 'view', 
 PY_BUILTINS = {'len', 'int', 'float', 'bool', 'min', 'max', 'abs', 'round', 'range', 'tuple', 'list', 'dict',
                'isinstance', 'print', 'enumerate', 'zip', 'type', 'str', 'sorted',
                # contract language
-               'forall', 'exists', 'implies', 'old', 'ite', 'real', 'toint', 'floor', 'iff', 'select', 'arrlen', 'sqrt',
+               'forall', 'exists', 'implies', 'old', 'ite', 'real', 'toint', 'floor', 'iff', 'select', 'arrlen', 'sqrt', 'voff', 'memoryview',
                'ValueError', 'TypeError'}
 
 PYOPS = {ast.Add: lambda a, b: a + b, ast.Sub: lambda a, b: a - b, ast.Mult: lambda a, b: a * b,
@@ -2151,3 +2232,6 @@ def numba_unify(a, b):
     if need > 64:
         raise Unsupported('int64/uint64 mix promotes to float64 in numba')
     return 'i' + str(need)
+
+
+BYTES_DT = DT('int', 'bytes', 8, False)
